@@ -162,11 +162,14 @@ def test_worker(w, todo, results):
         if rc != 0:
             res = "nocompile"
         else:
-            rc1, o1 = sh(["cargo", "test", "--workspace", "--no-fail-fast", "--offline"], cwd=wt, env=env, timeout=1500)
+            # tests/tokio_io.rs binds the fixed path /tmp/test_socket1: two workers running it at the same moment
+            # collide and leave a stale socket that fails every later run — skipped here (it exercises no anchored code)
+            rc1, o1 = sh(["cargo", "test", "--workspace", "--no-fail-fast", "--offline", "--", "--skip", "test_tokio_with_io_enabled"],
+                         cwd=wt, env=env, timeout=1500)
             rc2, o2 = (0, "")
             if rc1 == 0:
                 rc2, o2 = sh(["cargo", "test", "-p", "turmoil", "--features", "unstable-fs,unstable-io_uring,unstable-barriers,regex",
-                              "--no-fail-fast", "--offline"], cwd=wt, env=env, timeout=1500)
+                              "--no-fail-fast", "--offline", "--", "--skip", "test_tokio_with_io_enabled"], cwd=wt, env=env, timeout=1500)
             res = "survived" if rc1 == 0 and rc2 == 0 else "killed"
         results[m["id"]] = {"test": res, "test_s": round(time.time() - t0, 1)}
         print(m["id"], m["file"], m["line"], m["op"], res, flush=True)
@@ -198,7 +201,13 @@ def check():
         if [l for l in out.split("\n") if l and not l.startswith("??")]:
             print("refusing: /repo working tree is not clean")
             return 2
-        apply_to("/repo", m)
+        try:
+            apply_to("/repo", m)
+        except AssertionError:
+            done[m["id"]] = {"caught_by": [], "stale": True, "runs": {}}
+            print(m["id"], "stale: the line no longer exists in /repo HEAD", flush=True)
+            json.dump(done, open(cp, "w"), indent=1)
+            continue
         try:
             def run(p):
                 rc, out = sh([os.path.join(ROOT, "check"), p], cwd=ROOT, env={"VERIF_SCRATCH": "1"}, timeout=3000)
@@ -224,7 +233,7 @@ def report():
     for m in data["mutants"]:
         r = results.get(m["id"], {}).get("test", "?")
         c = done.get(m["id"])
-        key = r if r != "survived" else ("survived+caught" if c and c["caught_by"] else ("survived+quiet" if c else "survived+unchecked"))
+        key = r if r != "survived" else ("survived+stale" if c and c.get("stale") else "survived+caught" if c and c["caught_by"] else ("survived+quiet" if c else "survived+unchecked"))
         tot[key] = tot.get(key, 0) + 1
         if key == "survived+quiet":
             print("QUIET %s %s:%d [%s]\n   - %s\n   + %s" % (m["id"], m["file"], m["line"], m["op"], m["old"].strip(), m["new"].strip()))
